@@ -36,6 +36,7 @@ func runC05(c *Ctx, idx int) {
 	o := genOpts(r)
 	o.RecurOnlyProb = pick(r, 0.0, 0.5, 1.0, r.Float64())
 	var f *Family
+	mostlyDisabled := false
 	if idx%5 == 0 {
 		// disconnected sensors so that connect-sensors has work to do
 		g, err := loadShippedGenome("xordisconnectedstartgenes")
@@ -48,16 +49,27 @@ func runC05(c *Ctx, idx int) {
 		sp.Inputs = 3 + r.Intn(2)
 		sp.GeneProb = 0.1
 		f = newFamilyFrom(buildGenome(r, sp, 1), "built-sparse", o)
+	} else if idx%5 == 2 {
+		// 15-40 genes of which most are disabled: the random search of add-node for an enabled gene often comes up empty
+		sp := genSpec(r)
+		sp.Inputs, sp.Hidden, sp.Outputs = 2+r.Intn(3), 3+r.Intn(3), 1+r.Intn(2)
+		sp.GeneProb = 0.7
+		sp.DisabledProb = pick(r, 0.8, 0.9, 0.95)
+		f = newFamilyFrom(buildGenome(r, sp, 1), "built-mostly-disabled", o)
+		mostlyDisabled = true
+		c.Count("families.mostly_disabled", 1)
 	} else {
 		f = newFamily(r, o)
 	}
-	f.grow(r, 30+r.Intn(150))
+	if !mostlyDisabled {
+		f.grow(r, 30+r.Intn(150))
+	}
 	n := 150
 	if c.Tier == "thorough" {
 		n = 500
 	}
 	for i := 0; i < n && !c.Violated(); i++ {
-		if i%25 == 24 {
+		if i%25 == 24 && !mostlyDisabled {
 			f.grow(r, 15)
 		}
 		c05Mutation(c, f, r)
